@@ -50,15 +50,26 @@ def _run_one(ob):
     cmd = [os.path.join(HERE, ".venv", "bin", "python"), "-m", "crosshair", "check", "--report_all",
            "--per_condition_timeout", str(ob.timeout_s), "--per_path_timeout", str(max(5, ob.timeout_s // 4)), "%s:%d" % (path, line)]
     t0 = time.time()
-    try:
-        p = subprocess.run(cmd, capture_output=True, text=True, env=env, timeout=ob.timeout_s * 3 + 60, cwd=HERE)
-        out = p.stdout + p.stderr
-    except subprocess.TimeoutExpired as e:
-        out = "TIMEOUT " + str(e)
+    # a contract file that drives a PRIVATE unit says so itself when this tree does not have it (UNIT_MISSING = "<name>")
+    probe = subprocess.run([os.path.join(HERE, ".venv", "bin", "python"), "-c",
+                            "import importlib.util,sys; s=importlib.util.spec_from_file_location('chm', sys.argv[1]); m=importlib.util.module_from_spec(s); "
+                            "s.loader.exec_module(m); print('UNIT_MISSING=' + str(getattr(m, 'UNIT_MISSING', '')))", path],
+                           capture_output=True, text=True, env=env, timeout=120, cwd=HERE)
+    missing = re.search(r"UNIT_MISSING=(\S+)", probe.stdout)
+    if missing:
+        out = "private entry point not present in this tree: " + missing.group(1)
+    else:
+        try:
+            p = subprocess.run(cmd, capture_output=True, text=True, env=env, timeout=ob.timeout_s * 3 + 60, cwd=HERE)
+            out = p.stdout + p.stderr
+        except subprocess.TimeoutExpired as e:
+            out = "TIMEOUT " + str(e)
     wall = time.time() - t0
     verdict, reasons, violations = "inconclusive", [], []
     m_err = re.search(r": error: (.*)", out)
-    if "Confirmed over all paths" in out and not m_err:
+    if missing:
+        verdict, reasons = "not-applicable", ["skipped: " + out]
+    elif "Confirmed over all paths" in out and not m_err:
         verdict = "discharged"
     elif m_err:
         msg = m_err.group(1).strip()
